@@ -132,11 +132,11 @@ def judge(chk, c, obs, dropped):
     got = {}
     n = len(c.vals)
     for op, i, j, res, ev in o.recs:
-        if op in ("dbg", "dbgp", "dbgf"):
+        if op in ("dbg", "dbgp", "dbgf", "dbgx"):
             g, w = BH.H.unhex(res[0]), BH.H.unhex(res[1])
             got[(op, i)] = g
             if g != w:
-                mode = {"dbg": "{:?}", "dbgp": "{:#?}", "dbgf": "{:+08.3?}"}[op]
+                mode = {"dbg": "{:?}", "dbgp": "{:#?}", "dbgf": "{:+08.3?}", "dbgx": "{:#x?}"}[op]
                 chk.violation("shape|%s|%s" % (td.kind, op), "%s output differs from core's builders on the effective shape\n"
                               "value = %s\nobserved: %r\nexpected: %r\n%s" % (mode, c.vals[i], g, w, c.text), files)
                 return
@@ -150,7 +150,7 @@ def judge(chk, c, obs, dropped):
         chk.inconc("incomplete-output")
         return
     params = has_debug_params(td)
-    chk.held(digest(c.text), params or c.info["twin"], 3 * n + (n if c.info["twin"] else 0))
+    chk.held(digest(c.text), params or c.info["twin"], 4 * n + (n if c.info["twin"] else 0))
     chk.count("%s/%s" % (td.kind, "params" if params else "twin"))
     if params:
         chk.sample({"case": c.cid, "source": c.text, "outputs": [got[("dbg", i)] for i in range(min(3, n))] +
